@@ -1991,6 +1991,17 @@ class Library(Instance):
 
         collect_subenties(top_entity)
 
+        # entities are design units of one library, their
+        # (case insensitive) names identify them
+        unit_names = {}
+
+        for entity in entities:
+            unit_name = entity.name().lower()
+            assert (
+                unit_name not in unit_names
+            ), f"two different entities with the same name '{entity.name()}'"
+            unit_names[unit_name] = entity
+
         return Library(
             top_entity,
             [*entities],
